@@ -194,6 +194,30 @@ class JumpToStageHandler(StabilizeHandler[JumpToStage]):
                 )
                 return
 
+            # A jump is requested by a task of a RUNNING stage of a live execution.
+            # A delivery that finds the source stage no longer RUNNING, or the
+            # execution already complete, is a duplicate that slipped past the
+            # processor's dedup check (its lock lapsed while another worker was
+            # still applying the same jump, and this worker was slow): applying
+            # it again would re-arm stages of later iterations - or of a
+            # finished workflow.
+            if execution.status.is_complete or source_stage.status != WorkflowStatus.RUNNING:
+                logger.info(
+                    "Ignoring stale JumpToStage to %s - source stage %s is %s, execution %s",
+                    message.target_stage_ref_id,
+                    source_stage.name,
+                    source_stage.status,
+                    execution.status,
+                )
+                if message.message_id:
+                    with self.repository.transaction(self.queue) as txn:
+                        txn.mark_message_processed(
+                            message_id=message.message_id,
+                            handler_type="JumpToStage",
+                            execution_id=message.execution_id,
+                        )
+                return
+
             # Find target stage by ref_id
             target_stage = execution.stage_by_ref_id(message.target_stage_ref_id)
 
